@@ -37,7 +37,9 @@ def run(tier, corrupt=False):
             src, accepted, rejected = prepare_world(wt, progs, types)
             acc = {p["name"] for p in accepted}
             kept = [r for r in recs if r["prog"] in acc]
-            cases = [{"kind": "ser", "prog": r["prog"], "san0": False, "fuel": -1, "obj": r["obj"], "salt": 0} for r in kept]
+            # every violated object twice: enum-typed fields as enum instances, and as the plain integers the constructors equally accept
+            kept = kept + [dict(r, _enum_as_int=True) for r in kept if any(t.get("kind") == "enum" for t in types.values()) and "Color" in json.dumps(r["obj"]) + json.dumps([p for p in progs if p["name"] == r["prog"]][:1])]
+            cases = [{"kind": "ser", "prog": r["prog"], "san0": False, "fuel": -1, "obj": r["obj"], "salt": 0, "enum_as_int": bool(r.get("_enum_as_int"))} for r in kept]
             imp, results = run_drivers_parallel(src, wt, accepted, types, cases)
             if imp:
                 v.violation("generated package not importable", imp.strip().splitlines()[-1], {"trace": imp})
